@@ -21,6 +21,8 @@ structure ConnDesc where
   locked : Bool
   bits   : Nat
   l1     : String      -- std | chunked
+  dead1  : Bool := false   -- this connection's L1 / L2 backend connection is broken (the client
+  dead2  : Bool := false   -- connection itself survived the command during which it broke)
   deriving Inhabited
 
 structure St where
@@ -161,8 +163,13 @@ def step (st : St) (line : String) : St × List String :=
     | some c =>
       let inp := unhex bytes
       -- per feed: fresh request counters, fresh trace, connections alive again
-      let rs0 : RunSt := { st.run with n1 := 0, n2 := 0, dead1 := false, dead2 := false, trace := [] }
+      let rs0 : RunSt := { st.run with n1 := 0, n2 := 0, dead1 := c.dead1, dead2 := c.dead2, trace := [] }
       let (out, rs1) := Server.run (confOf c st.now) st.now st.fault inp rs0
+      -- a connection the server closed is replaced by a fresh one (fresh backend connections); one
+      -- that stays open keeps its broken backend connections
+      let gone := out.ending == .closed || out.ending == .crashed
+      let c' := { c with dead1 := !gone && rs1.dead1, dead2 := !gone && rs1.dead2 }
+      let st := { st with conns := st.conns.map (fun (x : ConnDesc) => if x.id == cid then c' else x) }
       -- tokens are supplied per feed (the harness cannot tell a metadata rewrite by touch from a set)
       let rs := { rs1 with toks := [] }
       let locks := " ".intercalate (out.events.filterMap evName)
